@@ -115,4 +115,50 @@ def bcp47ToOtfView (scriptOrder langOrder : List (List Nat × List Nat)) : TagVi
   | .ext e => extToOtf e
   | .plain k rl sc => some (noExtToOtf scriptOrder langOrder k rl sc)
 
+/-! ### normal form of tags that travel without the extension -/
+
+/-- script tags that share their BCP 47 script with a smaller tag (which is the one that comes back) -/
+def scriptTwins : List (List Nat × List Nat) := [
+  ([98, 110, 103, 50], [98, 101, 110, 103]),  -- 'bng2' -> 'beng'
+  ([100, 101, 118, 97], [100, 101, 118, 50]),  -- 'deva' -> 'dev2'
+  ([103, 117, 106, 114], [103, 106, 114, 50]),  -- 'gujr' -> 'gjr2'
+  ([103, 117, 114, 117], [103, 117, 114, 50]),  -- 'guru' -> 'gur2'
+  ([107, 110, 100, 97], [107, 110, 100, 50]),  -- 'knda' -> 'knd2'
+  ([109, 108, 121, 109], [109, 108, 109, 50]),  -- 'mlym' -> 'mlm2'
+  ([109, 121, 109, 114], [109, 121, 109, 50]),  -- 'mymr' -> 'mym2'
+  ([111, 114, 121, 97], [111, 114, 121, 50]),  -- 'orya' -> 'ory2'
+  ([116, 101, 108, 117], [116, 101, 108, 50]),  -- 'telu' -> 'tel2'
+  ([116, 109, 108, 50], [116, 97, 109, 108])  -- 'tml2' -> 'taml'
+  ]
+
+/-- language tags that share their BCP 47 language with a smaller tag (which is the one that comes back) -/
+def langTwins : List (List Nat × List Nat) := [
+  ([68, 73, 86, 32], [68, 72, 86, 32]),  -- 'DIV ' -> 'DHV '
+  ([72, 89, 69, 48], [72, 89, 69, 32]),  -- 'HYE0' -> 'HYE '
+  ([73, 78, 85, 75], [73, 78, 85, 32]),  -- 'INUK' -> 'INU '
+  ([73, 82, 84, 32], [73, 82, 73, 32]),  -- 'IRT ' -> 'IRI '
+  ([75, 65, 82, 32], [66, 65, 76, 32]),  -- 'KAR ' -> 'BAL '
+  ([75, 71, 69, 32], [75, 65, 84, 32]),  -- 'KGE ' -> 'KAT '
+  ([75, 72, 83, 32], [75, 72, 75, 32]),  -- 'KHS ' -> 'KHK '
+  ([75, 72, 86, 32], [75, 72, 75, 32]),  -- 'KHV ' -> 'KHK '
+  ([77, 67, 82, 32], [76, 67, 82, 32]),  -- 'MCR ' -> 'LCR '
+  ([77, 76, 82, 32], [77, 65, 76, 32]),  -- 'MLR ' -> 'MAL '
+  ([77, 79, 78, 84], [77, 79, 78, 32]),  -- 'MONT' -> 'MON '
+  ([78, 72, 67, 32], [78, 67, 82, 32]),  -- 'NHC ' -> 'NCR '
+  ([78, 76, 68, 32], [70, 76, 69, 32]),  -- 'NLD ' -> 'FLE '
+  ([82, 79, 77, 32], [77, 79, 76, 32]),  -- 'ROM ' -> 'MOL '
+  ([83, 65, 89, 32], [67, 72, 80, 32]),  -- 'SAY ' -> 'CHP '
+  ([84, 67, 82, 32], [68, 67, 82, 32]),  -- 'TCR ' -> 'DCR '
+  ([84, 71, 76, 32], [80, 73, 76, 32]),  -- 'TGL ' -> 'PIL '
+  ([84, 79, 68, 32], [75, 76, 77, 32]),  -- 'TOD ' -> 'KLM '
+  ([89, 67, 82, 32], [67, 82, 69, 32])  -- 'YCR ' -> 'CRE '
+  ]
+
+/-- the tag that comes back for `tag` when it travels as a BCP 47 tag without `-x-` extension -/
+def nfTag (twins : List (List Nat × List Nat)) (tag : List Nat) : List Nat :=
+  match tagGet twins tag with
+  | some t => t
+  | none => tag
+
+
 end SfntV.Names
